@@ -231,14 +231,22 @@ def check_bins(ctx):
                 pm_ = parent_map(f)
             par = pm_.get(node)
             while par is not None and par is not f:
-                if isinstance(par, ast.For) and isinstance(par.target, (ast.Tuple, ast.List)) and isinstance(par.iter, ast.Call) and dotted(par.iter.func) == "zip":
+                zip_call, zip_target = None, None
+                if isinstance(par, ast.For) and isinstance(par.target, (ast.Tuple, ast.List)) and isinstance(par.iter, ast.Call):
+                    if dotted(par.iter.func) == "zip":
+                        zip_call, zip_target = par.iter, par.target
+                    elif dotted(par.iter.func) == "enumerate" and len(par.iter.args) == 1 and isinstance(par.iter.args[0], ast.Call) \
+                            and dotted(par.iter.args[0].func) == "zip" and len(par.target.elts) == 2 and isinstance(par.target.elts[1], (ast.Tuple, ast.List)):
+                        zip_call, zip_target = par.iter.args[0], par.target.elts[1]          # for i, (lo, hi) in enumerate(zip(E[:-1], E[1:]))
+                if zip_call is not None:
                     try:
-                        itv = ev.ev(par.iter, symeval.Path({}, []))
-                        lv = symeval._loop_value(par, itv, "") if isinstance(itv, Rat) else None
+                        itv = ev.ev(zip_call, symeval.Path({}, []))
+                        fake = ast.For(target=zip_target, iter=zip_call, body=[], orelse=[])
+                        lv = symeval._loop_value(fake, itv, "") if isinstance(itv, Rat) else None
                     except symeval.Undecided:
                         lv = None
-                    if isinstance(lv, list) and len(lv) == len(par.target.elts):
-                        for t_, v_ in zip(par.target.elts, lv):
+                    if isinstance(lv, list) and len(lv) == len(zip_target.elts):
+                        for t_, v_ in zip(zip_target.elts, lv):
                             if isinstance(t_, ast.Name) and isinstance(v_, Rat) and t_.id not in env0:
                                 env0[t_.id] = v_
                 par = pm_.get(par)
